@@ -458,3 +458,11 @@ Definition flux_urgency_str (x : str) : option Z :=
 Definition flux_urgency_num (n d : Z) : Z := (- ((- (n * flux_urgency_scale)) / d))%Z.
 Definition enum_ok (x : str) : bool :=
   match flux_urgency_str x with Some u => (Z.leb 0 u && Z.leb u 31)%bool | None => false end.
+
+(* ------------------------------------------------------ Script._verify's form *)
+(** [add_sources] models environment.Script._verify by [wordy]: the line
+    CONTAINS a word character, i.e. [re.search] of [\w+].  The form found in
+    the source is regenerated as [script_verify_form] (Gen/SpecData.v); the
+    obligation [script_verify_form = script_form_expected] (Props/C13.v) breaks
+    when the code applies another function or pattern. *)
+Definition script_form_expected : str := s "search:\w+".
